@@ -262,7 +262,7 @@ def verify_function(make_ctx, reg, qualname, timeout_ms=10000, both=False):
                 # an obligation that failed earlier on this path is not assumed by the later ones: every clause is
                 # judged on its own, so a failure tagged for one property cannot mask one tagged for another
                 ob.pc = [p_ for p_ in ob.pc if not any(p_ is g for g in bad_goals)]
-            smt.discharge(ob, ctx.facts, timeout_ms=timeout_ms, both=both)
+            smt.discharge(ob, ctx.facts, timeout_ms=timeout_ms, both=both, small_terms=getattr(run, "size_terms", ()))
             if ob.verdict != "proved":
                 bad_goals.append(ob.goal)
             if ob.verdict == "refuted":
@@ -345,6 +345,9 @@ def exec_ghost(it, reg, text, fr, result, old, genv=None):
 
 
 # ---------------------------------------------------------------------------
+OPAQUE_JSON = {}     # sort name -> printer of a model value (installed by model modules)
+
+
 def val_json(run, m, v, depth=0):
     def ev(t):
         try:
@@ -395,6 +398,8 @@ def val_json(run, m, v, depth=0):
             sl = run.ctx.str_list
             ds = None if code == 0 else (sl[code - 1] if isinstance(code, int) and 1 <= code <= len(sl) else "other")
         return {"opaque": "Det", "id": ev(v.t), "meta": {"drift_state": ds}}
+    if isinstance(v, SOpaque) and v.sort in OPAQUE_JSON:
+        return OPAQUE_JSON[v.sort](run, m, v, ev)
     if isinstance(v, SOpaque):
         return {"opaque": v.sort, "id": ev(v.t), "meta": {k_: val_json(run, m, x, depth + 1) for k_, x in v.meta.items()}}
     if isinstance(v, tuple):
